@@ -258,6 +258,7 @@ func checkMain(args []string) int {
 	reachAll := map[string]int{}
 	bounds := map[string]interface{}{}
 	gwrites := map[string]int{}
+	stoppedEarly := ""
 	for _, h := range hs {
 		params := h.Quick
 		if *tier == "thorough" && h.Thorough != nil {
@@ -336,6 +337,15 @@ func checkMain(args []string) int {
 				samples = append(samples, s)
 			}
 		}
+		if len(cands) > 0 {
+			// fail fast: unlisted violation candidates exist; confirm them natively and report now
+			// instead of exploring the remaining harnesses (which a defect can make very slow)
+			stoppedEarly = h.ID
+			break
+		}
+	}
+	if stoppedEarly != "" {
+		fmt.Fprintf(os.Stderr, "stopping after %s: violation candidates found, remaining harnesses not explored\n", stoppedEarly)
 	}
 	st := pool.stats()
 	if st.St.Unknowns > 0 {
